@@ -361,7 +361,32 @@ func (e *Enc) ownedKeyFilter() func(string) bool {
 	}
 }
 
+// chanInvTerm: the declared invariant of values sent on channels with element
+// type et, for value v ("true" if there is none).
+func (e *Enc) chanInvTerm(st *State, et types.Type, v Value) string {
+	for _, ci := range e.v.db.ChanInvs {
+		pkg := e.v.pkgByPath[ci.Pkg]
+		env := &SpecEnv{e: e, pkg: pkg, vars: map[string]Value{"v": v}, cur: st, where: "chaninv " + ci.TypeText}
+		want, ok := env.tryType(ci.TypeText)
+		if !ok {
+			e.v.specErrors = append(e.v.specErrors, fmt.Sprintf("%s:%d: chaninv: unknown type %s", ci.File, ci.Line, ci.TypeText))
+			continue
+		}
+		if !types.Identical(want, et) {
+			continue
+		}
+		e.v.useTrusted("chaninv:" + ci.TypeText + " (checked at every send in a verified function, assumed at receives)")
+		return e.evalClause(env, ci.Clause)
+	}
+	return "true"
+}
+
 func (e *Enc) recordSend(fr *frame, st *State, ch, val Value, cond string, pos token.Pos) {
+	if ct, ok := ch.typ.Underlying().(*types.Chan); ok && len(e.v.db.ChanInvs) > 0 {
+		if t := e.chanInvTerm(st, ct.Elem(), val); t != "true" {
+			e.oblige(st, "chaninv", shortTypeName(ct.Elem()), t, pos)
+		}
+	}
 	cnt := e.ghostGet(st, ghostSendCount)
 	e.ghostSet(st, ghostSendCount, ite(cond, store(cnt, ch.term, "(+ "+sel(cnt, ch.term)+" 1)"), cnt))
 	e.sendSiteChecks(fr, st, ch, val, cond, pos)
@@ -394,6 +419,11 @@ func (e *Enc) recv(fr *frame, st *State, x *ssa.UnOp, ch Value) Value {
 // evidence) hold when the receive delivered a value (ok); "stable" locals are
 // from now on preserved across synchronisation points.
 func (e *Enc) recvSiteFacts(fr *frame, st *State, ch, val Value, ok string, pos token.Pos) {
+	if len(e.v.db.ChanInvs) > 0 {
+		if t := e.chanInvTerm(st, val.typ, val); t != "true" {
+			st.assume(implies(ok, t))
+		}
+	}
 	con := e.contract
 	if con == nil || fr.inlined || fr.fn != e.top {
 		return
